@@ -129,6 +129,10 @@ class C08(XsProp):
                     steps = ['xp limits 600 80 40', 'rec on'] + (['eval %s' % hexsrc(pre)] if pre else []) + \
                             ['%s %s' % (rng.choice(['eval', 'eval', 'compile']), hexsrc('#( %s %s %s' % (own, w_, tail)))] + back + ['pretty', 'dump']
                     cs.append(' | '.join(steps))
+        # witness of the repaired D39: a zero85 text whose last group is five padding marks (the z85 crate computed 4 - 5)
+        for t in ['#####', '00000#####', '####0', '#####0', '##########', '====', '========', '=', '#']:
+            for w_ in ('zero85>', 'base32>', 'base32hex>', 'base64>'):
+                cs.append('xs limits 600 80 40 | push %s | eval %s | pretty | stack' % (cells.fmt(('S', t.encode())), hexsrc(w_)))
         # witness of the repaired D36: the enum field after a field with the largest integer (panicked in the overflow-checking build)
         for src in ['enum E 170141183460469231731687303715884105727 = A : B endenum', 'enum E 170141183460469231731687303715884105726 = A : B : C endenum A B',
                     ': f enum E 170141183460469231731687303715884105727 = A : B endenum ; 1', 'enum E -170141183460469231731687303715884105728 = A : B endenum B']:
